@@ -27,7 +27,9 @@
    trace: H<cb>.<ud>@<ms>:<name>[#id] | :t | :g     handler invocations
           W:<text>                                    bytes handed to send()
           E:<event>                                   connection handler events
-          D S[..] I{..} T[..] G[..]                   dump (always at the end)                          */
+          D S[..] I{..} T[..] G[..]                   dump (always at the end)
+          RUNAWAY                                     more than 3000 invocations in one scenario (see run_beh)
+          LEAK=<n>                                    blocks still allocated after release                  */
 #include "vharness.h"
 #include "common.h"
 #include "parser.h"
